@@ -9,6 +9,7 @@ import (
 	"pgregory.net/rapid"
 
 	"verif/h/corpus"
+	"verif/h/gen"
 	"verif/h/hx"
 	"verif/h/llvmx"
 	"verif/h/orc"
@@ -138,4 +139,31 @@ func TestReplay(t *testing.T) {
 		t.Logf("replay input not judged: %s %s", o.Class, o.Msg)
 	}
 	_ = llvmx.Accept
+}
+
+func genCfg() gen.Cfg {
+	cfg := gen.DefaultCfg()
+	cfg.Off = genOff
+	cfg.Count = func(f string) { hx.Known("excluded:" + f) }
+	return cfg
+}
+
+func TestGenerated(t *testing.T) {
+	const test = "Generated"
+	hx.Rule(test, "modules drawn by the harness' own typed module generator (types incl. recursive/packed/opaque/scalable, globals with aggregate and constant-expression initialisers, functions with generated CFGs, phis, all arithmetic/memory/vector/aggregate/cast/call instructions, invoke/landingpad, indirectbr, callbr, switch, attributes, comdats, aliases, attribute groups, generic metadata), rendered by the harness' own text emitter in a drawn textual order: gate = llvm-as-14 accepts; the parser must accept (every construct is representable), parse/print must not panic, LLVM must accept the output and read the same canonical module; shrunk by rapid; non-trivial = >= 3 distinct opcodes or aggregate/metadata content")
+	hx.Check(t, test, hx.N(150, 2500), func(rt *rapid.T) {
+		m, feats := gen.Module(rt, genCfg())
+		x := m.Text()
+		hx.Eval(1)
+		o := judge(rt, test, "own-generator", "; source: own-generator\n"+x, true)
+		if o.V == orc.OK {
+			for k, v := range feats {
+				hx.HistN(k, v)
+			}
+			if nontrivial(x) {
+				hx.NonTrivial(x)
+			}
+		}
+		hx.SampleCase(test, x)
+	})
 }
